@@ -86,6 +86,77 @@ def show_file(cases):
     return HEADER + "Definition results : list (list (list N)) := [\n" + ";\n".join(items) + "].\nEval vm_compute in results.\n"
 
 
+EXTRACT_V = ("Require Extraction.\nFrom Coq Require Import ExtrOcamlBasic ExtrOcamlString.\n"
+             "From V.C29 Require Import Render.\nExtraction \"render_model.ml\" render_diagnostic mkDiag mkSub mkSpan mkLoc.\n")
+
+
+def build_driver(ctx):
+    """Extract coq/C29/Render.v to OCaml (ExtrOcamlBasic/ExtrOcamlString only) and link it with
+    driver.ml.  Cached under props/C29/_build/<hash of the inputs>/driver."""
+    import shutil
+    srcs = [vlib.COQ / "C29" / "Render.v", vlib.COQ / "Lib" / "Outcome.v", ctx.dir / "driver.ml"]
+    h = hashlib.sha1(b"".join(p.read_bytes() for p in srcs) + EXTRACT_V.encode()).hexdigest()[:16]
+    out = ctx.dir / "_build" / h / "driver"
+    if out.exists():
+        return out
+    ctx.coq_eval("extract", EXTRACT_V)
+    d = ctx.scratch / "coq"
+    shutil.copy(ctx.dir / "driver.ml", d / "driver.ml")
+    rc, log = vlib.sh(["ocamlfind", "ocamlopt", "-w", "-a", "render_model.mli", "render_model.ml", "driver.ml", "-o", "driver"],
+                      cwd=d, timeout=600)
+    if rc != 0:
+        raise RuntimeError("ocaml build failed:\n" + log[-3000:])
+    shutil.rmtree(ctx.dir / "_build", ignore_errors=True)
+    out.parent.mkdir(parents=True)
+    shutil.copy(d / "driver", out)
+    return out
+
+
+def hx(t):
+    return t.encode("latin-1").hex()
+
+
+def driver_input(cases):
+    def span(sp):
+        return "N" if sp is None else "S " + " ".join(map(str, sp))
+
+    def opt(t):
+        return "N" if t is None else ("S " + hx(t)).strip()
+    out = []
+    for c in cases:
+        out.append(str(len(c["src"])))
+        out += [hx(l) for l in c["src"]]
+        out += [c["level"], hx(c["title"]), span(c.get("span")),
+                opt(c.get("label") if c.get("span") is not None else None), opt(c.get("message")),
+                str(len(c.get("children", [])))]
+        for ch in c.get("children", []):
+            out += [ch["level"], span(ch.get("span")), opt(ch.get("label") if ch.get("span") is not None else None),
+                    opt(ch.get("message"))]
+    return "\n".join(out) + "\n"
+
+
+def run_driver(driver, cases):
+    import subprocess
+    p = subprocess.run([str(driver)], input=driver_input(cases), text=True, capture_output=True, timeout=1800)
+    if p.returncode != 0:
+        raise RuntimeError("driver failed: " + p.stderr[-2000:])
+    lines = p.stdout.split("\n")
+    res, i = [], 0
+    while i < len(lines) and lines[i] != "":
+        if lines[i] == "R":
+            res.append({"ok": False})
+            i += 1
+        else:
+            n = int(lines[i].split()[1])
+            res.append({"ok": True, "lines": [bytes.fromhex(x).decode("latin-1") for x in lines[i + 1:i + 1 + n]]})
+            i += 1 + n
+    return res
+
+
+def same(model, impl):
+    return model["ok"] == impl["ok"] and (not model["ok"] or model["lines"] == impl["lines"])
+
+
 def decode_show(v):
     if v[0] == [1]:
         return {"ok": True, "lines": ["".join(map(chr, l)) for l in v[1:]]}
@@ -155,15 +226,25 @@ def run(ctx):
     origin += [f"random:{case_key(c)}" for c in fresh]
     # ---- implementation side
     impl = json.loads(ctx.impl("impl_render.py", cases))
-    # ---- model side, compared inside Coq
-    agree, model_ok = None, tie_build.ok
-    if model_ok:
-        chunks = [(i, cases[i:i + 500], impl[i:i + 500]) for i in range(0, len(cases), 500)]
+    # ---- model side: extracted OCaml for the volume, plus the same comparison done inside
+    #      Coq (vm_compute) on the corpus and the first fresh cases (validates the extraction)
+    agree, model = None, None
+    n_coq = min(len(cases), (len(cases) - n_fresh) + (100 if ctx.quick else 400))
+    if tie_build.ok:
         try:
+            model = run_driver(build_driver(ctx), cases)
+            if len(model) != len(cases):
+                raise RuntimeError(f"driver returned {len(model)} results for {len(cases)} cases")
+            agree = [same(m, o) for m, o in zip(model, impl)]
+            chunks = [(i, cases[i:i + 50], impl[i:i + 50]) for i in range(0, n_coq, 50)]
             outs = ctx.coq_eval_many({f"cases{i}": agree_file(c, o) for i, c, o in chunks})
-            agree = []
+            coq_agree = []
             for i, _, _ in chunks:
-                agree += vlib.parse_coq_values(outs[f"cases{i}"])[0]
+                coq_agree += vlib.parse_coq_values(outs[f"cases{i}"])[0]
+            for j, a in enumerate(coq_agree):
+                if a != agree[j]:
+                    ctx.notes.append(f"extraction cross-check: Coq vm_compute and extracted OCaml differ on case {origin[j]}")
+                    agree[j] = False
         except RuntimeError as e:
             ctx.notes.append(f"model evaluation failed: {str(e)[-1500:]}")
             agree = None
@@ -187,11 +268,7 @@ def run(ctx):
     mismatches = [j for j, a in enumerate(agree or []) if not a] if agree is not None and len(agree) == len(cases) else None
     if mismatches:
         shown = mismatches[:5]
-        try:
-            vals = vlib.parse_coq_values(ctx.coq_eval("show", show_file([cases[j] for j in shown])))[0]
-            model_out = [decode_show(v) for v in vals]
-        except Exception as e:  # noqa: BLE001
-            model_out = [f"(could not print: {e})"] * len(shown)
+        model_out = [model[j] for j in shown]
         pure = [j for j in mismatches if not verdicts[j]]
         ctx.notes.append(f"{len(mismatches)} model/implementation disagreements, {len(pure)} of them on outputs the oracle accepts")
         if pure or not spec_fail:
@@ -229,7 +306,7 @@ def run(ctx):
          "text domain of the wrap theorems: printable ASCII and \\n; str.format placeholder expansion, to_span(ast) and MietteRenderer are not modelled"],
         evaluations=len(cases), distinct_nontrivial=nontrivial,
         rule="cases = corpus + seeded random diagnostics (sources 1-108 lines, indentation 0-32, single/multi/empty spans, 0-3 children, texts with long words/hyphens/newlines/tabs, 5% malformed); non-trivial = distinct well-formed case with a primary span (a snippet is rendered)",
-        traces_validated_against_impl=len(agree) if agree else 0,
+        traces_validated_against_impl=len(agree) if agree else 0, evaluated_inside_coq=n_coq if agree else 0,
         model_impl_disagreements=len(mismatches) if mismatches is not None else "not evaluated",
         oracle_failures=len(spec_fail), corpus_cases=len(cases) - n_fresh,
         feature_histogram=dict(sorted(hist.items())),
